@@ -300,7 +300,22 @@ func (c *compiler) compileBlock(s ast.BlockStat) {
 	c.compileBlockNoPop(s, true)()
 }
 
+// Compile the body of a function: if the block has no return statement, a
+// return instruction is emitted at the end.
+func (c *compiler) compileFunctionBlock(s ast.BlockStat) {
+	c.compileBlockNoPopWithReturn(s, true, true)()
+}
+
 func (c *compiler) compileBlockNoPop(s ast.BlockStat, complete bool) func() {
+	return c.compileBlockNoPopWithReturn(s, complete, false)
+}
+
+func (c *compiler) compileBlockNoPopWithReturn(s ast.BlockStat, complete bool, mustReturn bool) func() {
+	rtn := s.Return
+	if rtn == nil && mustReturn {
+		// The labels at the end of the block are still "back labels".
+		rtn = []ast.ExpNode{}
+	}
 	totalDepth := 0
 	noBackLabels := getLabels(c.CodeBuilder, s.Stats)
 	truncLen := len(s.Stats)
@@ -316,15 +331,15 @@ func (c *compiler) compileBlockNoPop(s ast.BlockStat, complete bool) func() {
 		}
 		c.CompileStat(stat)
 	}
-	if s.Return != nil {
-		if fc, ok := c.getTailCall(s.Return); ok {
+	if rtn != nil {
+		if fc, ok := c.getTailCall(rtn); ok {
 			c.compileCall(*fc.BFunctionCall, true)
 		} else {
 			contReg := c.getCallerReg()
-			c.compilePushArgs(s.Return, contReg)
+			c.compilePushArgs(rtn, contReg)
 			var loc ast.Locator
-			if len(s.Return) > 0 {
-				loc = s.Return[0]
+			if len(rtn) > 0 {
+				loc = rtn[0]
 			}
 			c.emitInstr(loc, ir.Call{
 				Cont: contReg,
